@@ -1085,6 +1085,12 @@ func (w *world) checkQuiet() {
 			continue
 		}
 		if n.closed {
+			if n.isStalled() {
+				// its consumer is not reading: Done() must close regardless; only then does the consumer
+				// resume to see the channel closed behind the buffered events
+				w.waitFor(n.doneCh(), fmt.Sprintf("Done() of closed node %s whose consumer is stalled", n.path()))
+				w.unstallNode(n)
+			}
 			w.waitFor(n.eof, fmt.Sprintf("Events() of closed node %s being closed", n.path()))
 			w.waitFor(n.doneCh(), fmt.Sprintf("Done() of closed node %s", n.path()))
 			continue
